@@ -76,7 +76,8 @@ def check_c(proc, rng, workdir: Path, ninputs=5, openmp=False, sanitize=True, ke
     if only_exact:
         # data arithmetic that leaves the C type (e.g. int32 overflow) is the program's
         # business, not the code generator's: such inputs are not used
-        ins = [x for x in ins if x[3].exact_ok]
+        # (neither is arithmetic on uninitialised data: what C computes there is garbage)
+        ins = [x for x in ins if x[3].exact_ok and not x[3].poison_arith]
     if not ins:
         r.status = "no_input"
         return r
